@@ -152,7 +152,7 @@ def run(ctx):
     ctx.check(errs == {"NotFound", "ServerDefault"}, "C13.guards", "C13.guards:remove:errors", w.where(f), bad_msg=f"remove errors are {errs}")
     ctx.floor("remove success paths", len(okp), 5)
 
-    ctx.rule("C13.positions", "default position passed to insert_and_move_rule is 1 for override rules and 0 for content/room/sender/underride; each kind "
+    ctx.rule("C13.positions", "default position passed to insert_and_move_rule is 0 for content/room/sender/underride and, for override rules, 1 iff the first override rule is the master rule (else 0); each kind "
                               "inserts into its own set")
     seen = {}
     for p in ipaths:
@@ -163,7 +163,19 @@ def run(ctx):
     for k in KINDS:
         s = seen.get("self." + k, set())
         var = {"override_": "Override", "content": "Content", "room": "Room", "sender": "Sender", "underride": "Underride"}[k]
-        want = (f"rule.{var}.0", "1" if k == "override_" else "0", "after", "before")
+        if k == "override_":
+            # second place only when the first place is taken by the master rule: 1 if `self.override_.first()` is `.m.rule.master`, else 0
+            pos = {x[1] for x in s}
+            shape = bool(s) and all((x[0], x[2], x[3]) == (f"rule.{var}.0", "after", "before") for x in s)
+            # the position is the truth value of "the first override rule is the master rule" (0 when there is no first rule)
+            MASTER = r"IndexSet::first\(self\.override_\)\.Some\.0\.rule_id==(?:PredefinedOverrideRuleId::as_(?:str|ref)\(PredefinedOverrideRuleId::Master\)|'\.m\.rule\.master')"
+            is_master = {x for x in pos if re.fullmatch(rf"(?:cast\()?{MASTER}\)?", x)}
+            good = shape and bool(is_master) and pos - is_master <= {"False", "0"}
+            ctx.check(good, "C13.positions", f"C13.positions:{k}", w.where(fi),
+                      bad_msg=f"override_: insert_and_move_rule called with {sorted(s)}: the default position must be 1 exactly when the first override rule is `.m.rule.master` and 0 "
+                              f"otherwise (with a constant 1, a new rule in a ruleset without the master rule lands behind an older user rule instead of becoming the most important)")
+            continue
+        want = (f"rule.{var}.0", "0", "after", "before")
         ctx.check(s == {want}, "C13.positions", f"C13.positions:{k}", w.where(fi), bad_msg=f"{k}: insert_and_move_rule called with {sorted(s)}, expected {want}")
 
     ctx.rule("C13.enabled", "when a rule with the same id exists, the new rule takes its `enabled` flag (all five kinds agree)")
